@@ -538,6 +538,10 @@ def report(prop, spec, tier, runs, findings, kf, t0, extra, status_extra):
         ),
         assumptions=trusted + assumed_dep + spec.get('assumptions', []),
         wall_s=round(wall, 2), violations=nviol)
+    if obligations == 0 or discharged == 0:
+        # nothing was decided (undecided run): say so instead of claiming a proof
+        ev['level'] = 'other'
+        ev['coverage']['explanation'] = 'UNDECIDED run: no obligation was discharged. ' + ' | '.join(u.split('\n')[0][:300] for u in undecided)
     os.makedirs(os.path.join(VERIF, 'evidence'), exist_ok=True)
     if status != 2 or not os.environ.get('OQ3_NO_EVIDENCE_ON_UNDECIDED'):
         with open(os.path.join(VERIF, 'evidence', prop + '.json'), 'w') as f:
